@@ -1251,10 +1251,11 @@ def check_digests(prop, tier, seed):
                       "event": {"t": "obj", "m": ev}, "exprs": exprs})
     lb = lambda bs: {"t": "bytes", "c": list(bs)}
     rb = lambda n: [rnd.getrandbits(8) for _ in range(n)]
-    n_msgs = 5 if tier == "quick" else 30
+    n_msgs = 2 if tier == "quick" else 30
     for alg in U["CRC_NAMES"]:
         add("crc", alg, {}, {"alg": alg, "x": lb(b"123456789"), "published": True})
-        msgs = [b"", b"123456789", b"a", bytes([0]), bytes([0, 0, 0, 0]), bytes([255] * 5)] + [bytes(rb(rnd.randint(1, 14))) for _ in range(n_msgs)]
+        msgs = ([b"", b"123456789", bytes([0, 0, 0])] if tier == "quick" else [b"", b"123456789", b"a", bytes([0]), bytes([0, 0, 0, 0]), bytes([255] * 5)]) + \
+               [bytes(rb(rnd.randint(1, 10 if tier == "quick" else 14))) for _ in range(n_msgs)]
         for m in msgs:
             add("crc", alg, {"out": f'crc!(.x, algorithm: "{alg}")'}, {"alg": alg, "x": lb(m), "published": False})
     H = {"SHA1": ("sha1!({})", 64), "SHA-224": ('sha2!({}, variant: "SHA-224")', 64), "SHA-256": ('sha2!({}, variant: "SHA-256")', 64),
@@ -1276,7 +1277,7 @@ def check_digests(prop, tier, seed):
             e = tmpl.replace("VAR", v)
             for m in ["", "abc", "message digest"]:
                 if (v, m) in {("md5", ""), ("md5", "abc"), ("md5", "message digest"), ("sha1", ""), ("sha1", "abc"), ("SHA-224", ""), ("SHA-224", "abc"), ("SHA-256", ""), ("SHA-256", "abc"),
-                              ("SHA-384", ""), ("SHA-384", "abc"), ("SHA-512", ""), ("SHA-512", "abc"), ("SHA3-224", ""), ("SHA3-256", ""), ("SHA3-256", "abc"), ("SHA3-384", ""), ("SHA3-512", "")}:
+                              ("SHA-384", ""), ("SHA-384", "abc"), ("SHA-512", ""), ("SHA-512", "abc"), ("SHA-512/224", ""), ("SHA-512/224", "abc"), ("SHA-512/256", ""), ("SHA-512/256", "abc"), ("SHA3-224", ""), ("SHA3-256", ""), ("SHA3-256", "abc"), ("SHA3-384", ""), ("SHA3-512", "")}:
                     add("digest_vector", f"{fam}({v})", {"out": e.format(".x")}, {"f": v, "x": lstr(m)})
             for _ in range(20 if tier == "quick" else 300):
                 x = rb(rnd.randint(0, 80))
@@ -1298,14 +1299,15 @@ def check_digests(prop, tier, seed):
            ("SHA-384", "abc"): "cb00753f45a35e8bb5a03d699ac65007272c32ab0eded1631a8b605a43ff5bed8086072ba1e7cc2358baeca134c825a7",
            ("SHA-512", ""): "cf83e1357eefb8bdf1542850d66d8007d620e4050b5715dc83f4a921d36ce9ce47d0d13c5d85f2b0ff8318d2877eec2f63b931bd47417a81a538327af927da3e",
            ("SHA-512", "abc"): "ddaf35a193617abacc417349ae20413112e6fa4e89a97ea20a9eeee64b55d39a2192992a274fc1a836ba3c23a3feebbd454d4423643ce80e2a9ac94fa54ca49f"}
-    EXPR = {"md5": "md5!(.x)", "sha1": "sha1!(.x)", "SHA-224": 'sha2!(.x, variant: "SHA-224")', "SHA-256": 'sha2!(.x, variant: "SHA-256")',
+    PUB.update({("SHA-512/224", ""): "6ed0dd02806fa89e25de060c19d3ac86cabb87d6a0ddd05c333b84f4", ("SHA-512/224", "abc"): "4634270f707b6a54daae7530460842e20e37ed265ceee9a43e8924aa", ("SHA-512/256", ""): "c672b8d1ef56ed28ab87c3622c5114069bdd3ad7b8f9737498d0c01ecef0967a", ("SHA-512/256", "abc"): "53048e2681941ef99b2e29b76b4c7dabe4c2d0c634fc6d46e0e2f13107e7af23"})
+    EXPR = {"SHA-512/224": 'sha2!(.x, variant: "SHA-512/224")', "SHA-512/256": 'sha2!(.x, variant: "SHA-512/256")', "md5": "md5!(.x)", "sha1": "sha1!(.x)", "SHA-224": 'sha2!(.x, variant: "SHA-224")', "SHA-256": 'sha2!(.x, variant: "SHA-256")',
             "SHA-384": 'sha2!(.x, variant: "SHA-384")', "SHA-512": 'sha2!(.x, variant: "SHA-512")'}
     for (f, m), h in PUB.items():
         add("sha", f, {}, {"f": f, "x": lstr(m), "want": lstr(h), "published": True})
     for f, e in EXPR.items():
-        block = 128 if f in ("SHA-384", "SHA-512") else 64
-        lens = ([0, 3, block - 9 - (8 if block == 128 else 0), block - 8 - (8 if block == 128 else 0), block] if tier == "quick" else
-                [0, 1, 3, block - 9 - (8 if block == 128 else 0), block - 8 - (8 if block == 128 else 0), block - 1, block, block + 1]) + [rnd.randint(2, 150) for _ in range(2 if tier == "quick" else 25)]
+        block = 128 if f in ("SHA-384", "SHA-512", "SHA-512/224", "SHA-512/256") else 64
+        lens = ([3, block - 8 - (8 if block == 128 else 0), block] if tier == "quick" else
+                [0, 1, 3, block - 9 - (8 if block == 128 else 0), block - 8 - (8 if block == 128 else 0), block - 1, block, block + 1]) + [rnd.randint(2, 150) for _ in range(1 if tier == "quick" else 25)]
         for n in lens:
             add("sha", f, {"out": e}, {"f": f, "x": lb(rb(max(0, n))), "published": False})
     PUB3 = {("SHA3-224", ""): "6b4e03423667dbb73b6e15454f0eb1abd4597f9a1b078e3f5b5a6bc7", ("SHA3-256", ""): "a7ffc6f8bf1ed76651c14756a061d662f580ff4de43b49fa82d80a4b80f8434a",
@@ -1315,7 +1317,7 @@ def check_digests(prop, tier, seed):
     for (f, m), h in PUB3.items():
         add("sha3", f, {}, {"f": f, "x": lstr(m), "want": lstr(h), "published": True})
     for f, rate in (("SHA3-224", 144), ("SHA3-256", 136), ("SHA3-384", 104), ("SHA3-512", 72)):
-        lens = ([0, 5, rate - 1, rate] if tier == "quick" else [0, 1, 5, rate - 2, rate - 1, rate, rate + 1, 2 * rate]) + [rnd.randint(2, 200) for _ in range(1 if tier == "quick" else 20)]
+        lens = ([5, rate - 1] if tier == "quick" else [0, 1, 5, rate - 2, rate - 1, rate, rate + 1, 2 * rate]) + [rnd.randint(2, 200) for _ in range(1 if tier == "quick" else 20)]
         for n in lens:
             add("sha3", f, {"out": f'sha3!(.x, variant: "{f}")'}, {"f": f, "x": lb(rb(n)), "published": False})
     XX = {"XXH32": "x32", "XXH64": "x64", "XXH3-64": "x3"}
